@@ -223,6 +223,29 @@ theorem append_noprune' (keep interval : Nat) (s : Store) (b : Block) (wf : WFRo
     · exact prune_noop _ keep b.number b.hash (tip_appendCore2 wf) h
     · rfl
 
+/-- under `noPruneB`, `append` maps stores that agree outside the ConsumedOutPoint rows to such stores
+(the first one is the actual store, for which the per-append checks were evaluated) -/
+theorem append_ncEq_noprune (keep interval : Nat) {S C : Store} (hS : NodupKeys S) (hC : NodupKeys C)
+    (h : NcEq S C) (b : Block) (wf : WFRollback2 S b) (hp : noPruneB keep interval b = true) :
+    NcEq (append keep interval S b) (append keep interval C b) := by
+  rw [append_noprune' keep interval S b wf hp]
+  have hcore : NcEq (appendCore S b) (appendCore C b) := appendCore_ncEq h b
+  have hC' : append keep interval C b = appendCore C b := by
+    simp only [noPruneB, Bool.or_eq_true, decide_eq_true_eq] at hp
+    rcases hp with hp | hp
+    · exact append_noprune keep interval C b hp
+    · unfold append
+      dsimp only
+      split
+      · have ht : tip (appendCore C b) = some (b.number, b.hash) := by
+          rw [tip_congr (appendCore C b) (appendCore S b)
+            (headerRows_ncEq (nodup_commit _ _ hC) (nodup_commit _ _ hS) hcore.symm)]
+          exact tip_appendCore2 wf
+        exact prune_noop _ keep b.number b.hash ht hp
+      · rfl
+  rw [hC']
+  exact hcore
+
 /-! ## histories -/
 
 /-- one step of the indexer's life: `append` of a block or `rollback` of the tip -/
@@ -267,7 +290,8 @@ def Rel (S T : Store) : Prop :=
 
 /-- `B0` = the store the history starts from, `c0` = the chain it is the store of -/
 def Good (keep interval : Nat) (B0 : Store) (c0 : List Block) (S : Store) (st : List (Store × Block)) : Prop :=
-  Rel S (topOf B0 st) ∧ AnsEq S ((c0 ++ kvChain st).foldl (append keep interval) []) ∧
+  Rel S (topOf B0 st) ∧ NcEq S ((c0 ++ kvChain st).foldl (append keep interval) []) ∧
+    AnsEq S ((c0 ++ kvChain st).foldl (append keep interval) []) ∧
     ChainOK2 keep interval [] (c0 ++ kvChain st) ∧ ChainOK3 keep interval [] (c0 ++ kvChain st) ∧
     ChainOK3T keep interval [] (c0 ++ kvChain st)
 
@@ -304,16 +328,18 @@ theorem good_app (keep interval : Nat) (B0 : Store) (c0 : List Block) (S : Store
     (g : Good keep interval B0 c0 S st) (ha : wfAppend2B S b = true) (hk : freshB2 S b = true)
     (hp : noPruneB keep interval b = true) :
     WFRollback2 S b ∧ Good keep interval B0 c0 (append keep interval S b) ((S, b) :: st) := by
-  obtain ⟨rel, heq, c2, c3, c3t⟩ := g
+  obtain ⟨rel, hnc, heq, c2, c3, c3t⟩ := g
   have li : LockInv S := lockInv_ansEq heq.symm (lockInv_chain2 keep interval _ [] lockInv_empty c2)
   have ti : TypeInv S := typeInv_ansEq heq.symm (typeInv_chain2 keep interval _ [] typeInv_empty c2)
   have wfr := wfRollback2_of_B2 S b ha hk li ti
   have wf := wfAppend2_ansEq heq b (wfAppend2_of_B S b ha)
   obtain ⟨f1, f2⟩ := freshTx_of_B2 S b hk
-  refine ⟨wfr, ?_, ?_, ?_, ?_, ?_⟩
+  refine ⟨wfr, ?_, ?_, ?_, ?_, ?_, ?_⟩
   · rw [append_noprune' keep interval S b wfr hp]
     have hnd : NodupKeys (appendCore S b) := nodup_commit _ _ rel.1
     exact ⟨hnd, hnd, NcEq.refl _, fun _ _ _ _ _ _ => rfl⟩
+  · rw [kvChain_cons', List.foldl_append]
+    exact append_ncEq_noprune keep interval rel.1 (nodup_chain keep interval _ [] trivial) hnc b wfr hp
   · rw [kvChain_cons', List.foldl_append]
     exact append_ansEq keep interval heq b
   · rw [kvChain_cons']; exact chainOK2_snoc keep interval _ b [] c2 wf
@@ -325,14 +351,14 @@ theorem good_app (keep interval : Nat) (B0 : Store) (c0 : List Block) (S : Store
 theorem good_rb (keep interval : Nat) (B0 : Store) (c0 : List Block) (S P : Store) (b : Block) (rest : List (Store × Block))
     (g : Good keep interval B0 c0 S ((P, b) :: rest)) (wf : WFRollback2 P b) (gp : Good keep interval B0 c0 P rest) :
     Good keep interval B0 c0 (rollback S) rest := by
-  obtain ⟨⟨hS, hT, hnc, hcons⟩, _, _, _, _⟩ := g
-  obtain ⟨⟨hP, hU, hncP, hconsP⟩, heqP, c2, c3, c3t⟩ := gp
+  obtain ⟨⟨hS, hT, hnc, hcons⟩, _, _, _, _, _⟩ := g
+  obtain ⟨⟨hP, hU, hncP, hconsP⟩, hncC, heqP, c2, c3, c3t⟩ := gp
   have htipT : tip (appendCore P b) = some (b.number, b.hash) := tip_appendCore2 wf
   have h1 : NcEq (rollback S) (rollback (appendCore P b)) :=
     rollback_ncEq hS hT hnc (fun tn th ht op => hcons tn th ht tn (Nat.le_refl _) op)
   have h2 : NcEq (rollback (appendCore P b)) P := fun k hk => rollback_append_get2 wf k hk
   have h3 : NcEq (rollback S) P := h1.trans h2
-  refine ⟨⟨nodup_rollback _ hS, hU, h3.trans hncP, ?_⟩, h3.ansEq.trans heqP, c2, c3, c3t⟩
+  refine ⟨⟨nodup_rollback _ hS, hU, h3.trans hncP, ?_⟩, h3.trans hncC, h3.ansEq.trans heqP, c2, c3, c3t⟩
   intro tn th ht bn hbn op
   -- the tip of the ideal store below is a Header row of `P`, so below `b.number`
   obtain ⟨f, l, hmem⟩ := tip_mem_headerRows _ tn th ht
@@ -409,7 +435,8 @@ theorem good_start (keep interval : Nat) (c0 : List Block) (c2 : ChainOK2 keep i
     Good keep interval (c0.foldl (append keep interval) []) c0 (c0.foldl (append keep interval) []) [] := by
   have hnd : NodupKeys (c0.foldl (append keep interval) []) := nodup_chain keep interval c0 [] trivial
   have e : c0 ++ kvChain [] = c0 := by simp [kvChain]
-  refine ⟨⟨hnd, hnd, NcEq.refl _, fun _ _ _ _ _ _ => rfl⟩, ?_, ?_, ?_, ?_⟩
+  refine ⟨⟨hnd, hnd, NcEq.refl _, fun _ _ _ _ _ _ => rfl⟩, ?_, ?_, ?_, ?_, ?_⟩
+  · rw [e]; exact NcEq.refl _
   · rw [e]; exact fun _ _ => rfl
   · rw [e]; exact c2
   · rw [e]; exact c3
